@@ -213,21 +213,8 @@ def encodable(s: str) -> bool:
         return False
 
 
-def check(model: Model, run: Run) -> None:
-    ex = extraction(model)
-    mr = may_raise(model)
-    folder = Folder(model)
-    run.explanation = ("(1) inter-procedural may-raise analysis (explicit raises, catalogued implicit raisers discharged by dominating guard "
-                       "facts, class-hierarchy call resolution, recursion cycles) from LDAPSession/LDAPClient/LDAPServer.receive: the set of "
-                       "exception classes that can leave must be {ProtocolError}; (2) every exception that can arise while the disconnect "
-                       "notification is encoded inside the handlers is discharged by a verified site-specific argument (root writer, constant "
-                       "tags, constant/strictly-decoded text); (3) Engine D: every ProtocolError path ends CLOSED, a CLOSED session refuses "
-                       "input without effect, and the attached response is pack() of the expected constant message")
-    common_coverage(ex, run)
-    for q in (BASE, CLIENT, SERVER):
-        model.cls(q)
-        if model.find_method(q, "receive") is None:
-            raise AnalysisError(f"{q}.receive not found")
+def escape_set_rule(model: Model, run: Run, ex, mr: MayRaise, rule: str):
+    """the exception classes that can leave LDAPSession.receive must be {ProtocolError}; returns the escape set"""
     base_fi = model.find_method(BASE, "receive")
     # ---- (1) escape set of the base receive (it contains the handlers) ---------
     base_esc = mr.escapes(base_fi.qualname, None)
@@ -252,13 +239,34 @@ def check(model: Model, run: Run) -> None:
             why = res[0][1] if res else "no path of the extracted machine reaches this removal without a membership fact"
             if not ok:
                 why = [r[1] for r in res if not r[0]][0]
-        run.ob("X1-escape-set", ok, {"exception": e.exc.split(".")[-1], "origin": e.short(), "discharge": why} if (not exc_is_sub(model, e.exc, PROTO)) else None)
+        run.ob(rule, ok, {"exception": e.exc.split(".")[-1], "origin": e.short(), "discharge": why} if (not exc_is_sub(model, e.exc, PROTO)) else None)
         if not ok:
-            run.fail(Finding("X1-escape-set", e.func, f"{e.exc.split('.')[-1]}|{e.text[:80]}",
+            run.fail(Finding(rule, e.func, f"{e.exc.split('.')[-1]}|{e.text[:80]}",
                              f"{e.exc.split('.')[-1]} can leave receive(): raised at `{e.text[:80]}` ({e.kind}{'; ' + e.why if e.why else ''}{'; ' + why if why else ''}) "
                              "and no handler on the way converts it to ProtocolError",
                              f"{model.relpath(model.functions[e.func].module) if e.func in model.functions else ''}:{e.line}",
                              [f"origin {e.short()}"]))
+    return base_esc
+
+
+def check(model: Model, run: Run) -> None:
+    ex = extraction(model)
+    mr = may_raise(model)
+    folder = Folder(model)
+    run.explanation = ("(1) inter-procedural may-raise analysis (explicit raises, catalogued implicit raisers discharged by dominating guard "
+                       "facts, class-hierarchy call resolution, recursion cycles) from LDAPSession/LDAPClient/LDAPServer.receive: the set of "
+                       "exception classes that can leave must be {ProtocolError}; (2) every exception that can arise while the disconnect "
+                       "notification is encoded inside the handlers is discharged by a verified site-specific argument (root writer, constant "
+                       "tags, constant/strictly-decoded text); (3) Engine D: every ProtocolError path ends CLOSED, a CLOSED session refuses "
+                       "input without effect, and the attached response is pack() of the expected constant message")
+    common_coverage(ex, run)
+    for q in (BASE, CLIENT, SERVER):
+        model.cls(q)
+        if model.find_method(q, "receive") is None:
+            raise AnalysisError(f"{q}.receive not found")
+    base_fi = model.find_method(BASE, "receive")
+    base_esc = escape_set_rule(model, run, ex, mr, "X1-escape-set")
+    reach = {k[0] for k in mr.summ}
     # sample of discharged implicit sites for the evidence
     for s in mr.implicit_sites[:12]:
         run.samples.append({"site": f"{s['function'].split('sansldap.')[-1]}: {s['construct']}", "kind": s["kind"], "verdict": s["verdict"], "reason": s["reason"]})
